@@ -1466,6 +1466,8 @@ impl Server {
             "VERIF" => self.handle_verif(parts, db),
             "PING" => self.handle_ping(parts),
             "PUBLISH" => self.handle_publish(parts), // reached from EXEC (queued inside MULTI)
+            // reached from EXEC only: the watches were checked and dropped before the queue ran
+            "UNWATCH" => if parts.len() == 1 { Ok(RespFrame::ok()) } else { Ok(RespFrame::error("ERR wrong number of arguments for 'unwatch' command")) },
             "ECHO" => self.handle_echo(parts),
             "SET" => self.handle_set(parts, db),
             "GET" => self.handle_get(parts, db),
